@@ -19,6 +19,8 @@ pub struct Case {
     pub outputs: Vec<u32>,
     /// extra definition of an already defined literal (index into the definers), to provoke LitAlreadyDefined
     pub duplicate: Option<u32>,
+    /// the extra definition is a latch (appended to the latches) instead of an and-gate
+    pub dup_latch: bool,
     pub cfg: u8,
 }
 impl Case {
@@ -29,14 +31,19 @@ impl Case {
         if self.reversed {
             gates.reverse();
         }
+        let mut latches: Vec<Latch<u32>> = (0..l).map(|k| Latch { state: 2 * (i + k + 1), next_state: self.latch_next[k as usize], initialization: None }).collect();
         if let Some(d) = self.duplicate {
-            gates.push(AndGate { inputs: [0, 0], output: d });
+            if self.dup_latch {
+                latches.push(Latch { state: d, next_state: 0, initialization: None });
+            } else {
+                gates.push(AndGate { inputs: [0, 0], output: d });
+            }
         }
         let m = self.inputs + self.latches + self.gates.len();
         Aig {
             max_var_index: m,
             inputs: (0..i).map(|k| 2 * (k + 1)).collect(),
-            latches: (0..l).map(|k| Latch { state: 2 * (i + k + 1), next_state: self.latch_next[k as usize], initialization: None }).collect(),
+            latches,
             outputs: self.outputs.clone(),
             bad_state_properties: self.outputs.iter().rev().take(1).map(|&x| x ^ 1).collect(),
             invariant_constraints: self.outputs.iter().take(1).cloned().collect(),
@@ -60,6 +67,7 @@ impl Case {
             self.outputs.iter().map(|x| x.to_string()).collect::<Vec<_>>().join(","),
             self.duplicate.map(|x| x.to_string()).unwrap_or("-".into()),
             self.cfg.to_string(),
+            (self.dup_latch as u8).to_string(),
         ]
     }
     fn from_args(a: &[String]) -> Case {
@@ -80,6 +88,7 @@ impl Case {
             outputs: list(&a[5]),
             duplicate: a[6].parse().ok(),
             cfg: a[7].parse().unwrap(),
+            dup_latch: a.get(8).map(|x| x == "1").unwrap_or(false),
         }
     }
 }
@@ -179,7 +188,8 @@ pub fn check(c: &Case) -> Option<(String, String)> {
     let r = catch_unwind(AssertUnwindSafe(|| Renumber::renumber_aig(c.config(), &aig)));
     let r = match r {
         Ok(r) => r,
-        Err(p) => bad!("C12 renumbering returns a circuit or a structure error", "panic: {}", panic_msg(p)),
+        // under the check of C05 the suite decides termination and absence of panics only (the other checks carry the C12 prefix)
+        Err(p) => bad!(if PROP_NO.load(Ordering::Relaxed) == 5 { "C05 renumbering returns a circuit or a structure error instead of panicking" } else { "C12 renumbering returns a circuit or a structure error" }, "panic: {}", panic_msg(p)),
     };
     let trim = c.cfg & 1 != 0;
     let const_fold = c.cfg & 4 != 0;
@@ -314,7 +324,7 @@ pub fn suite(_prop: &str, tier: &str, seed: u64) -> Report {
                     rep.nontrivial += 1;
                     for cfg in 0..8u8 {
                         // the gate list order only matters for forward references: alternate it
-                        run(&mut rep, &Case { inputs, latches, gates: gates.clone(), reversed: (variant ^ cfg) & 1 == 1, latch_next: latch_next.clone(), outputs: outputs.clone(), duplicate: None, cfg });
+                        run(&mut rep, &Case { inputs, latches, gates: gates.clone(), reversed: (variant ^ cfg) & 1 == 1, latch_next: latch_next.clone(), outputs: outputs.clone(), duplicate: None, dup_latch: false, cfg });
                     }
                 }
             }
@@ -323,10 +333,12 @@ pub fn suite(_prop: &str, tier: &str, seed: u64) -> Report {
     // undefined literals and double definitions
     for cfg in 0..8u8 {
         for (gates, outs) in [(vec![[2u32, 9]], vec![4u32]), (vec![[8, 2]], vec![5]), (vec![[2, 3], [9, 4]], vec![6]), (vec![[2, 3], [9, 4]], vec![4]), (vec![], vec![4]), (vec![], vec![7])] {
-            run(&mut rep, &Case { inputs: 1, latches: 0, gates, reversed: false, latch_next: vec![], outputs: outs, duplicate: None, cfg });
+            run(&mut rep, &Case { inputs: 1, latches: 0, gates, reversed: false, latch_next: vec![], outputs: outs, duplicate: None, dup_latch: false, cfg });
         }
         for d in [2u32, 3, 4, 5, 6, 0, 1] {
-            run(&mut rep, &Case { inputs: 1, latches: 1, gates: vec![[2, 4]], reversed: false, latch_next: vec![6], outputs: vec![6], duplicate: Some(d), cfg });
+            run(&mut rep, &Case { inputs: 1, latches: 1, gates: vec![[2, 4]], reversed: false, latch_next: vec![6], outputs: vec![6], duplicate: Some(d), dup_latch: false, cfg });
+            // the same literals defined once more by a further latch (after the input 2, the latch 4 and the gate 6)
+            run(&mut rep, &Case { inputs: 1, latches: 1, gates: vec![[2, 4]], reversed: false, latch_next: vec![6], outputs: vec![6], duplicate: Some(d), dup_latch: true, cfg });
         }
     }
     // deep chains: the traversal is iterative, depth must not matter
@@ -334,7 +346,7 @@ pub fn suite(_prop: &str, tier: &str, seed: u64) -> Report {
         let depth = 200_000usize;
         let gates: Vec<[u32; 2]> = (0..depth).map(|k| if k == 0 { [2, 3] } else { [2 * (k as u32 + 1), 2] }).collect();
         let top = 2 * (depth as u32 + 1);
-        let c = Case { inputs: 1, latches: 0, gates, reversed: true, latch_next: vec![], outputs: vec![top], duplicate: None, cfg };
+        let c = Case { inputs: 1, latches: 0, gates, reversed: true, latch_next: vec![], outputs: vec![top], duplicate: None, dup_latch: false, cfg };
         set_case("C12 renumbering terminates for arbitrarily deep graphs", &format!("chain of {} gates, options {}", depth, cfg), &["deep".to_string(), depth.to_string(), cfg.to_string()]);
         let aig = c.aig();
         rep.runs += 1;
@@ -348,7 +360,7 @@ pub fn suite(_prop: &str, tier: &str, seed: u64) -> Report {
             Err(p) => rep.fail("C12 renumbering terminates for arbitrarily deep graphs", format!("chain of {} gates", depth), vec!["deep".into(), depth.to_string(), cfg.to_string()], format!("panic {}", panic_msg(p))),
         }
     }
-    rep.bound = "renumber: every circuit with 0..2 inputs, 0..1 latches and 0..2 and-gates whose gate inputs range over ALL literals 0..2M+1 (so cyclic, self-referential and forward-referencing ones are included), 3 gates sampled (thorough: more), gate list in both orders, all 8 combinations of trim / structural_hash / const_fold; undefined and doubly defined literals; a chain of 200000 gates; roots and literal map compared by simulation under every assignment; 20 s watchdog and 512 MiB cap for termination".to_string();
+    rep.bound = "renumber: every circuit with 0..2 inputs, 0..1 latches and 0..2 and-gates whose gate inputs range over ALL literals 0..2M+1 (so cyclic, self-referential and forward-referencing ones are included), 3 gates sampled (thorough: more), gate list in both orders, all 8 combinations of trim / structural_hash / const_fold; undefined literals (as gate inputs and as roots only) and literals defined twice (by a further and-gate or a further latch, over an input, a latch, a gate, their negations and the constants); a chain of 200000 gates; roots and literal map compared by simulation under every assignment; 20 s watchdog and 512 MiB cap for termination".to_string();
     rep
 }
 pub fn replay(_prop: &str, args: &[String]) -> i32 {
